@@ -267,6 +267,31 @@ theorem invoked_while_live (n : Nat) :
   | zero => rfl
   | succ n ih => simp [invocations, tickerStep, List.replicate_succ, ih]
 
+/-- **C17, one handler's lifetime on a long-lived ticker**: `n` ticks while live all invoke it, the
+    cancellation and everything after it — further ticks, cancellations — never does.  (Handlers
+    of one ticker do not interact: `modelReg` is this single-handler semantics per handler, so any
+    interference between handlers in the implementation, e.g. a re-used handler id, shows up as a
+    disagreement.) -/
+theorem handler_invoked_until_cancel (n : Nat) (post : List Ev) :
+    ∃ rest, invocations ⟨true, false⟩ (List.replicate n Ev.tick ++ Ev.cancel :: post)
+        = List.replicate n true ++ false :: rest ∧ ∀ b ∈ rest, b = false := by
+  have gen : ∀ n, invocations ⟨true, false⟩ (List.replicate n Ev.tick ++ Ev.cancel :: post)
+      = List.replicate n true ++ false :: invocations ⟨true, true⟩ post := by
+    intro n
+    induction n with
+    | zero => simp [invocations, tickerStep]
+    | succ n ih => simp [invocations, tickerStep, List.replicate_succ, ih]
+  exact ⟨_, gen n, stops_after_cancel _ rfl post⟩
+
+/-- the directly computed lifetime window (the monitor) on an example with a removal in the
+    middle and a later registration. -/
+example : modelReg [.reg, .reg, .tick, .cancel 0, .tick, .reg, .tick] = [[1], [1, 2, 3], [3]] := by decide
+example : holdsReg [.reg, .reg, .tick, .cancel 0, .tick, .reg, .tick] [[1], [1, 2, 3], [3]] false = true := by
+  decide
+/-- a live handler that silently stops being invoked (its id re-used by a later registration). -/
+example : holdsReg [.reg, .reg, .tick, .cancel 0, .tick, .reg, .tick] [[1], [1, 2], [3]] false = false := by
+  decide
+
 theorem sysRun_cancelled (st : Strat) (s : Sys) (hc : s.h.cancelled = true) (m : Nat) :
     let s' := sysRun st s (List.replicate m Ev.tick)
     s'.b = s.b ∧ s'.calls = s.calls ∧ s'.retransmits = s.retransmits := by
